@@ -43,18 +43,26 @@ pub fn stats() -> Stats {
     }
 }
 
-static CONFIG: OnceLock<bool> = OnceLock::new();
+static CONFIG: OnceLock<(bool, bool)> = OnceLock::new();
 
 /// Installs the capturing reporter (once per process) and parks the library's background
 /// collector thread: it runs one cycle at start-up and then sleeps for the report interval, which
 /// is set to about 30 years. All later cycles are driven by the harness.
 pub fn init_process(cancelable: bool) {
-    let first = CONFIG.set(cancelable).is_ok();
-    assert!(first || *CONFIG.get().unwrap() == cancelable, "one collector configuration per process");
+    init_process_mode(cancelable, false)
+}
+
+/// `no_reporter`: no reporter is ever installed in this process (spans are not recording).
+pub fn init_process_mode(cancelable: bool, no_reporter: bool) {
+    let first = CONFIG.set((cancelable, no_reporter)).is_ok();
+    assert!(first || *CONFIG.get().unwrap() == (cancelable, no_reporter), "one collector configuration per process");
     if !first {
         return;
     }
     let s = sched();
+    if no_reporter {
+        return;
+    }
     let before = s.world().total_reports;
     fastrace::set_reporter(
         CaptureReporter,
@@ -69,7 +77,11 @@ pub fn init_process(cancelable: bool) {
 }
 
 pub fn cancelable() -> bool {
-    *CONFIG.get().expect("init_process")
+    CONFIG.get().expect("init_process").0
+}
+
+pub fn no_reporter() -> bool {
+    CONFIG.get().expect("init_process").1
 }
 
 #[derive(Debug, Clone, Serialize, Deserialize)]
@@ -103,6 +115,8 @@ pub struct BatchRec {
 #[derive(Debug, Clone, Serialize, Deserialize)]
 pub struct Execution {
     pub cancelable: bool,
+    #[serde(default)]
+    pub no_reporter: bool,
     pub choices: Vec<u32>,
     pub decisions: Vec<Decision>,
     pub steps: Vec<(usize, Pending)>,
@@ -366,6 +380,7 @@ pub fn run_once(program: &Program, prefix: &[u32]) -> Execution {
     }
     Execution {
         cancelable: cancelable(),
+        no_reporter: no_reporter(),
         choices,
         decisions,
         steps,
